@@ -87,6 +87,18 @@ func callees(fd *ast.FuncDecl) []string {
 	return out
 }
 
+// ifConds lists the conditions of the if statements of a function body, in source order.
+func (c *Ctx) ifConds(fd *ast.FuncDecl) []string {
+	var out []string
+	ast.Inspect(fd.Body, func(n ast.Node) bool {
+		if is, ok := n.(*ast.IfStmt); ok {
+			out = append(out, c.Expr(is.Cond))
+		}
+		return true
+	})
+	return out
+}
+
 func genDrkey(c *Ctx) error {
 	var sb strings.Builder
 	sb.WriteString("namespace Scion.Gen.Drkey\n")
@@ -227,6 +239,17 @@ func genDrkey(c *Ctx) error {
 		}
 		fmt.Fprintf(&sb, "/-- callees of `control/drkey/grpc.Server.%s`, source order -/\n"+
 			"def handler%sCalls : List String := %s\n", m, m, LeanStrList(callees(fd)))
+	}
+	// the validators: their decisions as written
+	for _, v := range []struct{ recv, name string }{{"", "validateASHostReq"}, {"", "validateHostASReq"},
+		{"", "validateHostHostReq"}, {"Server", "validateAllowedHost"}, {"Server", "validateClientCertificate"},
+		{"", "hostAddrFromPeer"}} {
+		fd, err := c.Func("control/drkey/grpc", v.recv, v.name)
+		if err != nil {
+			return err
+		}
+		fmt.Fprintf(&sb, "/-- `if` conditions of `control/drkey/grpc.%s`, source order -/\n"+
+			"def %sConds : List String := %s\n", v.name, v.name, LeanStrList(c.ifConds(fd)))
 	}
 	sb.WriteString("end Scion.Gen.Drkey\n")
 	return c.Emit("Drkey.lean", sb.String())
